@@ -303,6 +303,48 @@ def j11(rep):
             rep.ok("J11", key, sample={"text": t})
 
 
+def j13(rep):
+    """gj0BInt writes a big-integer constant either as BigInteger.valueOf(<integer literal>) or as new BigInteger("<digits>").
+    jcLiteralInteger prints through `%d`, and a Java integer literal without suffix is an `int`: the literal path is only right
+    for values of at most 31 bits.  The guard on the bit length must say so."""
+    f = common.extract("java/genjava.c", trees=["gj0BInt"])
+    g = common.extract("java/javacode.c", trees=["jcLiteralInteger"])
+    fmts = [string_value(a) for c in calls(g.func("jcLiteralInteger")["body"]) for a in c["c"][1:] if string_value(a)]
+    if not any(t in ("%d", "%i") for t in fmts):
+        raise AnalysisBroken("jcLiteralInteger no longer prints with %%d (%s): the width of the literal path has to be re-derived" % fmts)
+    fn = f.func("gj0BInt")
+    par = common.parents(fn["body"])
+    lits = calls(fn["body"], "jcLiteralInteger")
+    if not lits:
+        raise AnalysisBroken("gj0BInt: no jcLiteralInteger call (the literal path vanished)")
+    for c in lits:
+        where = "genjava.c:%d (gj0BInt)" % c["l"]
+        bits = None
+        cur = c
+        while cur["id"] in par:
+            p_ = par[cur["id"]]
+            if p_["k"] == "IfStmt" and any(y is cur for y in walk(p_["c"][1])):
+                for y in walk(p_["c"][0]):
+                    if y["k"] != "BinaryOperator" or y["op"] not in ("<", "<=", ">", ">="):
+                        continue
+                    l, r, op = y["c"][0], y["c"][1], y["op"]
+                    if op in (">", ">="):
+                        l, r, op = r, l, {">": "<", ">=": "<="}[op]
+                    if any(z.get("callee") == "bintLength" for z in walk(l)) and const_value(r) is not None:
+                        b = const_value(r) - 1 if op == "<" else const_value(r)
+                        bits = b if bits is None else min(bits, b)
+            cur = p_
+        if bits is None:
+            raise AnalysisBroken("gj0BInt: the literal path is not under a `bintLength(val) < constant` test")
+        if bits <= 31:
+            rep.ok("J13", "bigint-literal-fits-int", sample={"bits at most": bits})
+        else:
+            rep.violation("J13", "bigint-literal-fits-int", where,
+                          "big-integer constants of up to %d bits are written as BigInteger.valueOf(<literal printed with %%d>): a "
+                          "value of 32 bits or more is printed as its low 32 bits, signed (2147483648 becomes -2147483648), the class "
+                          "compiles and computes with the wrong constant while the interpreter uses the right one" % bits)
+
+
 def run(tier, only=None):
     rep = common.Report("C12", tier, EXPLANATION)
     f_foam = common.extract("foam.c")
@@ -622,6 +664,7 @@ def run(tier, only=None):
             raise
         rep.note("J9 not evaluated: %s" % e)
     j11(rep)
+    j13(rep)
     from . import variant_dispatch
     variant_dispatch.report(rep, "J12", common.extract("java/genjava.c", all_trees=True), "genjava.c", "gj0Gen0", 35)
     from . import variadic
